@@ -3,6 +3,7 @@
    codec round trip of C10 plus the whole-file check; crash points inside recovery are C04). *)
 From Coq Require Import List NArith ZArith Bool.
 From Feox Require Import Gen.Constants Model.Bytes Model.Lww Proofs.LwwProofs.
+From Feox Require Gen.Constants Model.Codec Model.FreeSpace Model.Recovery Proofs.ScanQuiescentProofs Proofs.ScanGenerationsProofs Proofs.ScanExpiryProofs.
 From Feox Require Model.Sched Model.Sweep Proofs.SweepProofs.
 Import ListNotations.
 Local Open Scope N_scope.
@@ -203,12 +204,67 @@ Print Assumptions expired_key_stays_absent.
 
 Theorem read_never_returns_expired :
   forall s k v, snd (Sweep.sstep s (Sweep.EGet k)) = Sweep.SVal (Some v) ->
-  exists g, Sched.aget k (Sweep.ss_tbl s) = Some g /\ Sweep.expired_at g (Sweep.ss_now s) = false /\ Sweep.sg_val g = v.
+  exists g, Sched.aget k (Sweep.ss_tbl s) = Some g /\ Sweep.expired_at g (Sweep.ss_now s) = false /\ Sweep.sg_val g = v
+
+(* ---- recovery (byte level, Model/Recovery.v): the scan keeps the newest generation of every key,
+   then remove_expired_recovery_winners goes over the whole index.  Afterwards a key is exposed
+   exactly when its newest generation on the device has not expired, and then with that generation;
+   a key whose newest generation has expired is absent although older generations of it are on
+   the device -- no older generation takes its place ---- *).
 Proof. exact SweepProofs.get_never_returns_expired. Qed.
 Check read_never_returns_expired :
   forall s k v, snd (Sweep.sstep s (Sweep.EGet k)) = Sweep.SVal (Some v) ->
-  exists g, Sched.aget k (Sweep.ss_tbl s) = Some g /\ Sweep.expired_at g (Sweep.ss_now s) = false /\ Sweep.sg_val g = v.
+  exists g, Sched.aget k (Sweep.ss_tbl s) = Some g /\ Sweep.expired_at g (Sweep.ss_now s) = false /\ Sweep.sg_val g = v
+
+(* ---- recovery (byte level, Model/Recovery.v): the scan keeps the newest generation of every key,
+   then remove_expired_recovery_winners goes over the whole index.  Afterwards a key is exposed
+   exactly when its newest generation on the device has not expired, and then with that generation;
+   a key whose newest generation has expired is absent although older generations of it are on
+   the device -- no older generation takes its place ---- *).
 Print Assumptions read_never_returns_expired.
+
+Theorem recovery_hides_keys_whose_newest_generation_expired :
+  forall c version total now jl img its st0 fuel,
+  Recovery.c_ro c = false -> Codec.has_token version = true -> (total <= Recovery.U64MAX)%N ->
+  (length its < fuel)%nat ->
+  Recovery.rs_fs st0 = FreeSpace.mkfs [] (total * Constants.FEOX_BLOCK_SIZE)%N 0%N 0%N ->
+  Recovery.rs_last_end st0 = Constants.FEOX_DATA_START_BLOCK -> Recovery.rs_idx st0 = [] ->
+  (total * Constants.FEOX_BLOCK_SIZE < FreeSpace.U64)%N ->
+  Forall (ScanQuiescentProofs.item_ok version) its ->
+  skipn (N.to_nat Constants.FEOX_DATA_START_BLOCK) img = ScanQuiescentProofs.ilayout version Constants.FEOX_DATA_START_BLOCK its ->
+  total = (Constants.FEOX_DATA_START_BLOCK + ScanQuiescentProofs.isum version its)%N -> (0 < ScanQuiescentProofs.isum version its)%N ->
+  exists st1 st2,
+    Recovery.scan fuel c version total img Constants.FEOX_DATA_START_BLOCK st0 jl = Recovery.Ok st1 /\
+    Recovery.expire_winners c version now (Recovery.rs_idx st1) st1 = Recovery.Ok st2 /\
+    (forall r s, In (r, s) (ScanGenerationsProofs.placed version Constants.FEOX_DATA_START_BLOCK its) ->
+                 exists e, Recovery.idx_find (Codec.r_key r) (Recovery.rs_idx st1) = Some e /\ (Codec.r_ts r <= Recovery.e_ts e)%N) /\
+    (forall k, Recovery.idx_find k (Recovery.rs_idx st2) =
+               match Recovery.idx_find k (Recovery.rs_idx st1) with
+               | Some e => if ScanExpiryProofs.expired now e then None else Some e
+               | None => None
+               end).
+Proof. exact ScanExpiryProofs.recovery_hides_keys_whose_newest_generation_expired. Qed.
+Check recovery_hides_keys_whose_newest_generation_expired :
+  forall c version total now jl img its st0 fuel,
+  Recovery.c_ro c = false -> Codec.has_token version = true -> (total <= Recovery.U64MAX)%N ->
+  (length its < fuel)%nat ->
+  Recovery.rs_fs st0 = FreeSpace.mkfs [] (total * Constants.FEOX_BLOCK_SIZE)%N 0%N 0%N ->
+  Recovery.rs_last_end st0 = Constants.FEOX_DATA_START_BLOCK -> Recovery.rs_idx st0 = [] ->
+  (total * Constants.FEOX_BLOCK_SIZE < FreeSpace.U64)%N ->
+  Forall (ScanQuiescentProofs.item_ok version) its ->
+  skipn (N.to_nat Constants.FEOX_DATA_START_BLOCK) img = ScanQuiescentProofs.ilayout version Constants.FEOX_DATA_START_BLOCK its ->
+  total = (Constants.FEOX_DATA_START_BLOCK + ScanQuiescentProofs.isum version its)%N -> (0 < ScanQuiescentProofs.isum version its)%N ->
+  exists st1 st2,
+    Recovery.scan fuel c version total img Constants.FEOX_DATA_START_BLOCK st0 jl = Recovery.Ok st1 /\
+    Recovery.expire_winners c version now (Recovery.rs_idx st1) st1 = Recovery.Ok st2 /\
+    (forall r s, In (r, s) (ScanGenerationsProofs.placed version Constants.FEOX_DATA_START_BLOCK its) ->
+                 exists e, Recovery.idx_find (Codec.r_key r) (Recovery.rs_idx st1) = Some e /\ (Codec.r_ts r <= Recovery.e_ts e)%N) /\
+    (forall k, Recovery.idx_find k (Recovery.rs_idx st2) =
+               match Recovery.idx_find k (Recovery.rs_idx st1) with
+               | Some e => if ScanExpiryProofs.expired now e then None else Some e
+               | None => None
+               end).
+Print Assumptions recovery_hides_keys_whose_newest_generation_expired.
 Example expiry_example :
   let c := mkcfg false true 3 None 168 in
   let e0 := mkenv 0 0 1000000000000 1000000000001 0 None in
@@ -227,3 +283,23 @@ Example renewal_wins_against_a_parked_sweeper :
   Sched.aget 7 (Sweep.ss_tbl (Sweep.sfinal Sweep.sinit plain)) = None /\
   length (Sweep.ss_log (Sweep.sfinal Sweep.sinit plain)) = 1%nat.
 Proof. vm_compute. repeat split. Qed.
+
+(* non-vacuity: key k1 has an old generation without expiry and a newest one that expired (expiry 50,
+   now 100); k2 lives.  After recovery k1 is absent, k2 present; both extents of k1 are queued *)
+Example expired_newest_generation_hides_the_key :
+  let old := Codec.mkrec [107; 49] [1; 1] 20 0 in
+  let new := Codec.mkrec [107; 49] [2; 2; 2] 30 50 in
+  let other := Codec.mkrec [107; 50] [9] 5 0 in
+  let its := [ScanQuiescentProofs.IRec old; ScanQuiescentProofs.IRec other; ScanQuiescentProofs.IRec new] in
+  let img := repeat (repeat 0%N Codec.BLOCK) 16 ++ ScanQuiescentProofs.ilayout 3 16 its in
+  let c := Recovery.mkcfg false false (Some 100%N) 168 in
+  match Recovery.scan 6 c 3 19 img 16 (Recovery.mkrs [] (FreeSpace.mkfs [] (19 * 4096) 0 0) 0 0 0 [] 16 0) [] with
+  | Recovery.Ok st1 =>
+      match Recovery.expire_winners c 3 100 (Recovery.rs_idx st1) st1 with
+      | Recovery.Ok st2 => map Recovery.e_key (Recovery.rs_idx st2) = [[107; 50]]%N /\
+                           Recovery.rs_retired st2 = [(18, 1); (16, 1)]%N /\ Recovery.rs_count st2 = 1%N
+      | _ => False
+      end
+  | _ => False
+  end.
+Proof. vm_compute. repeat split; reflexivity. Qed.
